@@ -2,7 +2,9 @@
 characters that are special to the bytecode file formats."""
 import itertools
 
-ALPHABET = ['"', "\\", " ", "\t", "\n", "\r", "n", "r", "t", "é", "a"]
+ALPHABET = ['"', "\\", " ", "\t", "\n", "\r", "n", "r", "t", "é", "a", "\u00a0", "\x0b", "\U0001F600"]
+# é: 2-byte letter; U+00A0 no-break space and U+000B vertical tab: whitespace for char::is_whitespace but not a blank/tab/LF/CR;
+# U+1F600: 4-byte scalar
 ESC = {'"': '\\"', "\\": "\\\\", "\n": "\\n", "\r": "\\r", "\t": "\\t"}
 
 
